@@ -130,6 +130,14 @@ CHECKS = {
             "specification maps the document to (type tags included), serialise it back to an equal document (type-strict comparison), "
             "and reach with .field / [\"key\"] / [i] exactly the element the path reaches in the document.",
             "Trusted: TLC, Python's json parser for number text. NaN / infinities are not JSON and are not generated.", "5/C15"),
+    "C17": ("TLA+ spec C7nLib (set predicates, normalize, a recursive glob matcher, IPv4 containment on masked octets, version order, tag "
+            "lookup, message:action@date split, ARN split, the filter-context state machine) checked by TLC; every case called directly "
+            "and through CEL with FUNCTIONS bound; every context history replayed through C7N_Interpreted_Runner",
+            "TLC enumerates per helper an exhaustive small input space (lists over a 3-element alphabet to length 3, glob texts / patterns "
+            "over { a B * ? [ ] ! }, every prefix length 0..32 against addresses differing in single bits, versions of 1-3 components, "
+            "tag lists with repeated keys and values containing ':' and '@', the three ARN shapes) and all histories of up to 4 "
+            "succeeding / failing / raising evaluations; laws (symmetry, self-containment, literal patterns) are model invariants.",
+            "Trusted: TLC, the recording probe function. Glob ranges, IPv6 and pre-release versions are not modelled.", "5/C17"),
 }
 NOT_YET = "check not built yet in this phase (planned per DESIGN.md section 5)"
 
